@@ -22,7 +22,7 @@ C = [-1., -.5, .5, 1., 2., .25, 0., 0.]
 
 @st.composite
 def cases(draw, tier):
-    r = draw(gentopo.recipes(kinds=['line', 'rect', 'rect', 'tri', 'tri', 'mixed', 'multipatch', 'periodic', 'rect3', 'simplex3'], maxops=2, ops=('refine', 'refined_by', 'refined_by', 'trim'), maxn=2))
+    r = draw(gentopo.recipes(kinds=['line', 'rect', 'rect', 'tri', 'tri', 'mixed', 'multipatch', 'periodic', 'rect3', 'simplex3'], maxops=2, ops=('refine', 'refined_by', 'refined_by', 'trim', 'trim'), maxn=2))
     coeffs = [[draw(st.sampled_from(C)) for _ in range(10)] for _ in range(4)]   # scalar field + 3 vector components
     return dict(mesh=r, coeffs=coeffs, gdeg=draw(st.sampled_from([2, 3])), gbasis=draw(st.sampled_from([None, None, None, 0, 1])))
 
